@@ -644,6 +644,7 @@ def translate_one(lean_name, region, cpp, sel, kind):
     for fn in c:
         recv = {"exts": "xs", "exts1": "xs", "arrit": "it", "arrit1": "it", "elemit": "it", "erange": "r"}[kind]
         it = It(kind, recv, {}, f"{rel}:{fn['line']}:{cpp}", src, (rel, hdr))
+        it.home = (src, lo, hi)
         binders = []
         for n, k, isref in param_kinds(fn["params"], kind):
             ln = GL.lean_ident(n)
